@@ -44,6 +44,7 @@ type ccCase struct {
 	Race       bool     `json:"race,omitempty"`     // C19: listener installed, Wait/SaveCache/Close/hybrid operations enabled
 	Hybrid     bool     `json:"hybrid,omitempty"`
 	LoadStorm  bool     `json:"load_storm,omitempty"`
+	RaiseProcs bool     `json:"raise_procs,omitempty"` // GOMAXPROCS is doubled for the case, after package init (locks built then have more reader slots than the process started with)
 	CostYield  int      `json:"cost_yield,omitempty"` // > 0: the store has a cost function that takes about 2 us per unit (yielding) and returns 1; loads pass cost 0
 	PanicEvery int      `json:"panic_every,omitempty"` // C19: the loader panics on every n-th invocation (callers recover)
 	ShortTTL   bool     `json:"short_ttl,omitempty"` // C16: SetWithTTL uses 1-3 ms and the programs nap, so Gets meet expired entries that are still resident
@@ -318,6 +319,13 @@ func execConc(c ccCase, x *verifkit.Ctx, lin, counters bool) (fail *verifkit.Fai
 		panic("needs real maintenance")
 	}
 	vkRealTime()
+	if c.RaiseProcs {
+		// a program that raises GOMAXPROCS after start-up (seeded C19h: a writer that looks at as many reader
+		// slots as there were processors when the package was initialised)
+		prev := runtime.GOMAXPROCS(0)
+		runtime.GOMAXPROCS(2 * prev)
+		defer runtime.GOMAXPROCS(prev)
+	}
 	r := &ccRun{c: c, ldIvs: map[int64][2]int64{}}
 	opts := &StoreOptions[int, int64]{MaxSize: int64(c.MaxSize), EntryPool: c.Pool, Doorkeeper: c.Doorkeeper}
 	if c.Race {
@@ -851,6 +859,7 @@ func genC19(t *rapid.T) ccCase {
 	if c.Loading {
 		c.PanicEvery = rapid.SampledFrom([]int{0, 0, 2, 3, 5}).Draw(t, "panicEvery")
 	}
+	c.RaiseProcs = rapid.IntRange(0, 3).Draw(t, "raiseProcs") == 0
 	extra := rapid.Custom(func(t *rapid.T) ccOp {
 		k := rapid.IntRange(0, c.Keys-1).Draw(t, "k")
 		switch rapid.IntRange(0, 9).Draw(t, "xop") {
@@ -907,6 +916,7 @@ func TestVerifC19(t *testing.T) {
 			}
 			x.ClassIf(c.Hybrid, "hybrid")
 			x.ClassIf(c.PanicEvery > 0, "panicking-loader")
+			x.ClassIf(c.RaiseProcs, "gomaxprocs-raised-after-init")
 			if len(c.Progs) >= 2 && conflicts > 0 {
 				x.NonTrivial()
 			}
